@@ -17,7 +17,7 @@ ASSUMPTIONS = [
     "only the order of rows *within* a group is constrained; the order between groups is free",
     "values are unique per row so that a returned row identifies its source position even with a duplicated index",
 ]
-N_CASES = {"quick": 1200, "thorough": 30000}
+N_CASES = {"quick": 1200, "thorough": 12000}
 BIG = [32767, 32768, 65535, 65536, 70000, 200000]
 
 
